@@ -150,7 +150,15 @@ fn build_prog(c: &AccCase, pkt_base: u64) -> Vec<u8> {
                                 v.push(Insn::new(opc, 2, 4, c.off, 0));
                             }
                         }
+                        // (irregular spacing: a no-op `add r5, 0` after about half of the repetitions, so
+                        // that the numbering of intermediate values inside a compiler does not advance
+                        // by the same amount per repetition)
+                        let mut lcg = (c.warm_reps as u64).wrapping_mul(0x9E37_79B9_7F4A_7C15) ^ (c.off as u16 as u64) ^ ((c.width as u64) << 40);
                         for _ in 0..c.warm_reps {
+                            lcg = lcg.wrapping_mul(6364136223846793005).wrapping_add(1442695040888963407);
+                            for _ in 0..[0usize, 1, 0, 2][(lcg >> 33) as usize & 3] {
+                                v.push(Insn::new(ADD64_IMM, 5, 0, 0, 0));
+                            }
                             v.push(Insn::new(MOV64_REG, 2, 10, 0, 0));
                             v.push(Insn::new(ADD64_IMM, 2, 0, 0, -64 - c.off as i32));
                             match c.acc {
@@ -837,7 +845,7 @@ pub fn run(a: &Args, rep: &mut Report, cl: bool) {
                     };
                     let regs = if warm && is_abs && (repoint == 3 || repoint == 4) { (0, regs.1, 0) } else { regs };
                     let warm_width = if warm && rng.chance(1, 3) { 8 } else { 0 };
-                    let warm_reps = if warm && is_abs && !cfg!(miri) && acc != Acc::Xadd && rng.chance(1, if cl { 40 } else { 150 }) { rng.range(2500, 6000) as u32 } else { 0 };
+                    let warm_reps = if warm && is_abs && !cfg!(miri) && acc != Acc::Xadd && rng.chance(1, if cl { 25 } else { 150 }) { rng.range(2500, 6500) as u32 } else { 0 };
                     if warm_reps > 0 {
                         long_warm += 1;
                     }
